@@ -290,7 +290,9 @@ class CScope(Scope):
 
     def s_callstmt(self, draw, depth):
         o = draw(st.sampled_from(self.objs))
-        ms = [(owner, m) for owner, m in methods_of(self.prog["classes"], o["t"]) if m["kind"] != "static"]
+        # inside a method only methods of lower rank may be called (acyclic call graph under dynamic dispatch: termination)
+        ms = [(owner, m) for owner, m in methods_of(self.prog["classes"], o["t"]) if m["kind"] != "static"
+              and m.get("rank", 0) < getattr(self, "rank", 99)]
         if not ms:
             return {"k": "echo", "e": lit("int", 0)}
         owner, m = draw(st.sampled_from(ms))
